@@ -58,4 +58,13 @@ PROPS = {
         "components": COMPONENTS_L1,
         "assumptions": ASSUME_COMMON,
     },
+    "C14": {
+        "families": ["c14e", "c14p"],
+        "runs": {"quick": 30000, "thorough": 400000},
+        "level": "fault_enumeration",
+        "rule": "one evaluation = one generated adapter byte stream (1..7 segments with driver actions startArbitration/send/requestEnhancedInfo/clock advance in between; plain bytes, every response command incl. unknown ones, stray second bytes, dangling first bytes, reset and error frames) decoded by the real EnhancedDevice+FileTransport under the unsplit stream, the byte-by-byte split, EVERY two-way split, four seeded k-way splits and two kernel level chunkings (fresh device per partition), or (c14p) one feed/consume script against FileTransport alone. Non-trivial = stream longer than one byte / more than 4 bytes fed; distinct = distinct trace hashes among those.",
+        "components": {"real": ["src/lib/ebus/device_trans.cpp (EnhancedDevice::recv/handleEnhancedBufferedData/send/startArbitration/requestEnhancedInfo/notifyTransportStatus)", "src/lib/ebus/transport.cpp (FileTransport::open/read/readConsumed/write/close)", "src/lib/ebus/device_enhanced.h"],
+                       "stub": ["kernel (ppoll/read/write/close, time, usleep): /verif/sim/simkernel.cpp", "adapter byte stream: generated, fed into the simulated fd", "DeviceListener/TransportListener: recording test doubles"]},
+        "assumptions": ASSUME_COMMON + ["after a RESETTED that is not the answer to an INIT sent less than 2.5 s ago the rest of the stream is not judged (the transport is closed)", "the byte directly following a dangling first byte may be lost or decoded"],
+    },
 }
